@@ -194,8 +194,9 @@ def mon_c16(c):
         return None
     e = parse_edges(c.obs['E'])
     user = [tuple(x) for x in rb.edges]
-    if e[:len(user)] != user:
-        return 'accepted edges not kept in place: built %s, accepted %s' % (e[:len(user)], user)
+    kept = [x for x in e if x[2] != 'D']
+    if sorted(kept) != sorted(user):      # the order of the edge list is not part of the property
+        return 'accepted edges not kept: built %s, accepted %s' % (sorted(kept), sorted(user))
     pairs = [(a, b) for (a, b, _k) in e]
     if len(set(pairs)) != len(pairs):
         return 'two edges on one ordered pair'
@@ -222,12 +223,11 @@ def mon_c11(c):
     n = len(rb.nodes)
     e = parse_edges(c.obs['E'])
     user = [tuple(x) for x in rb.edges]
-    if e[:len(user)] != user:
-        return 'user edges changed: built %s, accepted %s' % (e[:len(user)], user)
-    for (a, b, k) in e[len(user):]:
-        if k != 'D':
-            return 'extra edge %d-%d of kind %s' % (a, b, k)
-        if not conflict(rb.nodes[a], rb.nodes[b]):
+    kept = [x for x in e if x[2] != 'D']
+    if sorted(kept) != sorted(user):
+        return 'user edges changed: built %s, accepted %s' % (sorted(kept), sorted(user))
+    for (a, b, k) in e:
+        if k == 'D' and not conflict(rb.nodes[a], rb.nodes[b]):
             return 'Data edge %d-%d between non-conflicting functions' % (a, b)
     if not is_acyclic(n, e):
         return 'built graph has a cycle'
